@@ -2,14 +2,15 @@
 export GOFLAGS=-mod=mod GOPROXY=off GOSUMDB=off GOTOOLCHAIN=local
 export VERIF_DIR="${VERIF_DIR:-$(cd "$(dirname "${BASH_SOURCE[0]}")/.." && pwd)}"
 export REPO_DIR="${REPO_DIR:-/repo}"
-mkdir -p "$VERIF_DIR/build" "$VERIF_DIR/evidence" "$VERIF_DIR/replays"
+export VERIF_BUILD_DIR="${VERIF_BUILD_DIR:-$VERIF_DIR/build}"
+mkdir -p "$VERIF_BUILD_DIR" "$VERIF_DIR/evidence" "$VERIF_DIR/replays"
 # The harness sources under $VERIF_DIR/mc are compiled as packages
 # github.com/palomachain/paloma/v2/zzverif/... of the repository's own module by
 # means of `go build -overlay` (nothing is written into $REPO_DIR). This builds
 # against the current working tree with the repository's own go.mod and gives the
 # harness access to the module's internal packages.
 genoverlay() {
-  local out="$VERIF_DIR/build/overlay.json" first=1
+  local out="$VERIF_BUILD_DIR/overlay.json" first=1
   { printf '{"Replace":{'
     ( cd "$VERIF_DIR/mc" && find . -name '*.go' | sort ) | while read -r f; do
       f="${f#./}"
@@ -24,5 +25,5 @@ genoverlay() {
 buildprop() {
   local lc="$1"; shift
   local ov; ov=$(genoverlay) || return 1
-  ( cd "$REPO_DIR" && go build -overlay "$ov" "$@" -o "$VERIF_DIR/build/$lc" "./zzverif/props/$lc" )
+  ( cd "$REPO_DIR" && go build -overlay "$ov" "$@" -o "$VERIF_BUILD_DIR/$lc" "./zzverif/props/$lc" )
 }
